@@ -249,6 +249,7 @@ def extras(chk):
                           'callname_ok': bool(name_ok), 'equal': bool(equal)})
             meta[cid] = desc
             chk.nontrivial((lib, json.dumps(d, sort_keys=True)))
+    self_dependent_defaults(chk, cases, meta, genmod)
     can = []
     for c in cases:
         if len(can) >= 15:
@@ -278,6 +279,56 @@ def extras(chk):
     chk.stage('extras', instances=len(cases), rejected=nrej, states=st['distinct'])
     for c in cases[:: max(1, len(cases) // 3)][:3]:
         chk.sample(meta[c['id']])
+
+
+def self_dependent_defaults(chk, cases, meta, genmod):
+    """attrs factories that take the instance (`@x.default`): the declared default of a field depends
+    on the instance, so it must be evaluated for EVERY instance. Several instances of the same class
+    are printed one after another; `same` is computed against the instance's own default."""
+    @attr.s
+    class Span:
+        start = attr.ib()
+        length = attr.ib(default=1)
+        end = attr.ib()
+        tags = attr.ib(factory=list)
+
+        @end.default
+        def _end_default(self):
+            return self.start + self.length
+
+    Span.__module__ = 'verif_c17gen'
+    Span.__qualname__ = 'Span'
+    setattr(genmod, 'Span', Span)
+    insts = [Span(5, 1), Span(5, 1, 2), Span(3, 4), Span(3, 4, 6), Span(5, 1, 6), Span(1, 1, 6), Span(3, 4, 7, ['t']),
+             Span(0), Span(0, 1, 1)]
+    for inst in insts + list(reversed(insts)):
+        own_end = inst.start + inst.length
+        fields = [{'dflt': 'none', 'repr': True, 'same': False},
+                  {'dflt': 'value', 'repr': True, 'same': inst.length == 1},
+                  {'dflt': 'factory', 'repr': True, 'same': inst.end == own_end},
+                  {'dflt': 'factory', 'repr': True, 'same': inst.tags == []}]
+        desc = {'library': 'attrs', 'definition': 'Span(start, length=1, end=Factory(start+length, takes_self), tags=list)',
+                'instance': repr(inst)}
+        try:
+            with warnings.catch_warnings():
+                warnings.simplefilter('ignore')
+                out = P.pformat(inst, width=200)
+            obs = pyterm.parse_output(out)
+        except Exception as e:  # noqa
+            chk.violation('C17.raises', 'printing %r raised %r' % (desc, e), desc)
+            continue
+        desc['output'] = out
+        names = [{'start': 'f1', 'length': 'f2', 'end': 'f3', 'tags': 'f4'}.get(k, k) for k, _ in obs[3]] \
+            if obs[0] == 'call' else ['<not a call>']
+        try:
+            back = eval(out, {'verif_c17gen': genmod})
+            equal = type(back) is Span and back == inst
+        except Exception:
+            equal = False
+        cid = len(cases) + 1
+        cases.append({'id': cid, 'fields': fields, 'frozen': False, 'slots': False, 'names': names,
+                      'callname_ok': obs[0] == 'call' and obs[1] == 'verif_c17gen.Span' and not obs[2], 'equal': bool(equal)})
+        meta[cid] = desc
 
 
 def rng_width(chk):
